@@ -302,6 +302,21 @@ func runC19(c *Ctx) {
 		r.Floor("R19.1", "constants added by ListStyles", len(added), 4)
 	}
 
+	// premise of R19.1: the registry's listing is a fresh slice (ListStyles appends to it and sorts it in place)
+	for _, gg := range c.findGuardedGlobals() {
+		if gg.G.Pkg.Pkg.Path() == pkgPath("texttable/decoration") {
+			sub := &Report{Rules: map[string]string{}, known: map[string]string{}, knownSeen: map[string]bool{}, Extra: map[string]interface{}{}, c: c}
+			saved := c.R
+			c.R = sub
+			c17Listing(c, gg)
+			c.R = saved
+			for _, o := range sub.Obs {
+				ob := r.Check("R19.1", o.Func, "registry listing premise: "+o.Construct, 0, o.Verdict == "discharged", "ListStyles extends and sorts the slice it is handed: it must be the caller's own copy")
+				ob.Pos = o.Pos
+			}
+		}
+	}
+
 	// R19.4
 	if tp := c.TPkg("texttable/decoration"); tp != nil {
 		n := 0
@@ -679,12 +694,12 @@ func delegates(c *Ctx, fn, wrapFn *ssa.Function, name string) (bool, string) {
 func renderViaBuffer(fn *ssa.Function) (bool, string) {
 	var buf *ssa.Alloc
 	eachInstr(fn, func(in ssa.Instruction) {
-		if al, ok := in.(*ssa.Alloc); ok && isNamed(al.Type().(*types.Pointer).Elem(), "bytes", "Buffer") {
+		if al, ok := in.(*ssa.Alloc); ok && (isNamed(al.Type().(*types.Pointer).Elem(), "bytes", "Buffer") || isNamed(al.Type().(*types.Pointer).Elem(), "strings", "Builder")) {
 			buf = al
 		}
 	})
 	if buf == nil {
-		return false, "no bytes.Buffer allocated here"
+		return false, "no fresh buffer (bytes.Buffer / strings.Builder) allocated here"
 	}
 	nrt := 0
 	okRecv := false
@@ -704,7 +719,7 @@ func renderViaBuffer(fn *ssa.Function) (bool, string) {
 				}
 			}
 		case *ssa.Call:
-			if f := x.Call.StaticCallee(); f != nil && funcPkgPath(f) == "bytes" && f.Name() == "String" {
+			if f := x.Call.StaticCallee(); f != nil && (funcPkgPath(f) == "bytes" || funcPkgPath(f) == "strings") && f.Name() == "String" {
 				continue
 			}
 			others = append(others, calleeDesc(&x.Call))
